@@ -326,6 +326,16 @@ class Framing(Harness):
                         raise Violation("retransmission-delivered-again", f"{kinds}")
                 elif got != wellformed[key]:
                     raise Violation("wellformed-frames-decoded-differently", f"{kinds}: {got!r}")
+                if key[0] in ("syn", "syn2") and not dup:
+                    # the network duplicates (or the sender retransmits) the very same frames: no second delivery
+                    fakezmq.NET.q("tcp://rx:1").append(list(frames))
+                    try:
+                        again = lst._recv_one(0)
+                    except Exception as e:
+                        raise Violation("retransmission-raised", f"{kinds}: {e}")
+                    if again is not None:
+                        raise Violation("retransmission-delivered-again", f"{kinds}")
+                    fakezmq.NET.queues["tcp://tx:9"].pop()  # its acknowledgement
                 if key[0] in ("syn", "syn2"):
                     acks = fakezmq.NET.queues.get("tcp://tx:9", [])
                     if len(acks) != 1 or pickle.loads(acks[0][0]) != Ack(idx=1 if key[0] == "syn" else 2):
